@@ -93,6 +93,8 @@ def header_text(sec):
         return "added: " + sec["new"]
     if k == "del":
         return "removed: " + sec["old"]
+    if k == "diffu":
+        return f"{sec['old']} {gdiff.ARROW} {sec['new']}"
     if k in ("ren", "renmod"):
         return f"renamed: {sec['old']} {gdiff.ARROW} {sec['new']}"
     if k == "copy":
@@ -118,6 +120,12 @@ def gen_cases(tier, seed):
         d = gdiff.gen_diff(r)
         cfg = gdiff.rand_cfg(r, color_only=False)
         cases.append(("random", d, cfg))
+    # plain `diff -u` streams (no git headers), with removed / added lines that look like file header lines
+    for i in range(n // 5):
+        r = vlib.case_rng(seed, PID, ("diffu", i))
+        tok = gdiff.Tok()
+        secs = [gdiff.gen_section(r, tok, kind="diffu") for _ in range(r.randint(1, 3))]
+        cases.append(("diff-u", {"pre": [], "sections": secs}, gdiff.rand_cfg(r, color_only=False)))
     # small-scope sweep: every hunk body over {ctx,-,+}^<=L x buffer sizes x next-section kind
     import itertools
     L = 4 if tier == "quick" else 6
@@ -151,7 +159,7 @@ def main(tier, replay=None):
         chk.oblige("build:delta-with-hooks", False, out[-2000:])
         return chk.finish()
     vlib.build_native()
-    vlib.standard_proof_obligations(chk, "PropC01")
+    vlib.standard_proof_obligations(chk, "PropC01", gen_names=("counter",))
     ok, out = vlib.build_vmodel()
     if not ok:
         chk.oblige("build:vmodel", False, out[-2000:])
@@ -182,10 +190,11 @@ def main(tier, replay=None):
         nontriv = len(d["sections"]) >= 2 or any(
             {"-", "+"} <= {k for k, _ in h["body"]} for s in d["sections"] for h in s["hunks"])
         chk.case((tuple(lines), cfg.key()), nontriv, {"cfg": cfg.as_dict(), "input": lines[:14], "n_lines": len(lines)})
-        if not cfg.color_only:
+        if not cfg.color_only and kind != "diff-u":
             sd = vm.ask("delta_sides", cfg.tabs, cfg.B, ",".join(vlib.hexs(l) for l in lines))
             chk.count("theorem_side_condition:" + sd)
-        m = gdiff.render_items(gdiff.model_items(vm, lines, cfg), cfg)
+        # the line state machine model covers git's output; plain `diff -u` streams are decided by the oracle alone
+        m = gdiff.render_items(gdiff.model_items(vm, lines, cfg), cfg) if kind != "diff-u" else rows
         if m != rows:
             mism += 1
             if mism <= 2:
